@@ -17,7 +17,7 @@ THEOREMS = [
     'Pfst.C05.mode_total', 'Pfst.C05.modes_match_spec', 'Pfst.C05.class_modes_match_spec', 'Pfst.C05.wrappers_sound',
     'Pfst.C05.wrappers_observed', 'Pfst.C05.b2c_c2b_boundary', 'Pfst.C05.fixSeq_trailing', 'Pfst.C05.fixSeq_no_trailing',
     'Pfst.C05.trailing_sep_spec', 'Pfst.C05.trailing_comma_spec', 'Pfst.C05.trailing_semicolon_spec',
-    'Pfst.C05.trailing_sep_same_language', 'Pfst.C05.trailing_sep_blanks', 'Pfst.C05.verify_comments_irrelevant', 'Pfst.C05.arg_single',
+    'Pfst.C05.trailing_sep_same_language', 'Pfst.C05.trailing_sep_blanks', 'Pfst.C05.verify_comments_irrelevant', 'Pfst.C05.arg_single', 'Pfst.C05.importfrom_no_own_parens',
 ]
 RULE = ('(1) whole programs (snippets, generated, layout-mutated, commented, multi-byte, stdlib chunks) through exec/stmts/strict/'
         'all/eval/single and FST(src): source unchanged, tree == ast.parse with positions; (2) for every extended mode, fragments '
@@ -637,6 +637,35 @@ def sibling_product():
     return out
 
 
+MODE_GROUPS = [
+    ['alias', 'Import_name', 'ImportFrom_name', '_aliases', '_Import_names', '_ImportFrom_names'],
+    ['arg', 'arguments', 'arguments_lambda'], ['keyword', '_arglike', '_arglikes', 'expr_arglike'], ['withitem', '_withitems'],
+    ['type_param', '_type_params'], ['comprehension', '_comprehensions', '_comprehension_ifs'], ['pattern', '_pattern_attrlikes'],
+    ['expr', 'expr_all', 'expr_slice', 'Tuple_elt', 'Tuple', 'expr_arglike'], ['ExceptHandler', '_ExceptHandlers'],
+    ['match_case', '_match_cases'], ['stmt', 'stmts', 'exec'], ['_decorator_list'], ['_Assign_targets'],
+    ['operator', 'unaryop', 'cmpop', 'boolop'],
+]
+
+
+def own_delimiter_product():
+    """every atom of every mode wrapped in its OWN parentheses, single- and multi-line, the closing parenthesis at assorted
+    columns (incl. the column where the element ends on its line), with comment / trailing comma: CPython on the genuine
+    construct decides whether the element may carry parentheses of its own (an expression may, an alias / arg / keyword /
+    type parameter / comprehension may not).  -> [(label, text, modes)]"""
+    out = []
+    for mode, atoms in sorted(F.SINGLE_ATOMS.items()):
+        group = next((g for g in MODE_GROUPS if mode in g), [mode])
+        modes = sorted(set(group + ['all']))
+        for X in atoms:
+            if not X or '\n' in X and mode in ('ExceptHandler', 'match_case', 'stmt', '_ExceptHandlers', '_match_cases', '_decorator_list'):
+                continue
+            L = len(X.rsplit('\n', 1)[-1])
+            for W in (f'({X})', f'( {X} )', f'(\n{X}\n)', f'(\n{X}\n' + ' ' * max(L - 1, 0) + ')', f'(\n{X}\n' + ' ' * L + ')',
+                      f'(\n  {X}\n' + ' ' * (L + 1) + ')', f'(  # c\n{X}\n)', f'(\n{X},\n)', f'({X}\n)', f'(\n{X})', f'[\n{X}\n]'):
+                out.append(('owndelims:' + mode, W, modes))
+    return out
+
+
 def generated_malformed(rng, n_random):
     out = []
     for s in semicolon_product():
@@ -706,14 +735,15 @@ def _mal_modes():
 
 
 def _mal_worker(arg):
-    label, T = arg
+    label, T = arg[0], arg[1]
+    only = arg[2] if len(arg) > 2 else None
     px = _px()
     out = []
     if F.redos_risk(T):
         return out
     bal = F.balanced(T)
     wacky = any(c in T for c in '\r\x0c\x00')
-    for mode in _mal_modes():
+    for mode in (only or _mal_modes()):
         gmode = mode if mode in F.GATES else _class_cat(mode)
         if mode in ('Module',):
             gmode = 'exec'
@@ -1079,6 +1109,31 @@ def correspondence(ctx):
         impl.append(r)
     ctx.compare("parse_arg accepts vs Pfst.ParseWrap.argNormalOk/argStarOk on CPython's arguments shape", cases, impl,
                 keyf=lambda c: c['src'], nontrivial=lambda c, o: c['star'] or o is True)
+    # (j) parse_ImportFrom_name / parse__ImportFrom_names: "names end where the wrapper statement ends" on CPython's positions
+    texts = sorted({W for lab, W, _ in own_delimiter_product() if lab.split(':')[1] in MODE_GROUPS[0]}
+                   | {t for t in sibling_product() if ' as ' in t or t[:1] in 'ad'} | set(F.SINGLE_ATOMS['ImportFrom_name'])
+                   | set(F.SINGLE_ATOMS['_ImportFrom_names']) | {'a as b  # c', 'a \\\n as b', '(a as b,\n c)', '(a,\n b\n  )', 'a,\nb'})
+    cases, impl = [], []
+    for T in texts:
+        if F.redos_risk(T) or F._semi(T):
+            continue
+        m = F._p('from . import \\\n' + T) or F._p('from . import \\\n' + F._lcont(T))
+        if m is None or len(m.body) != 1 or not isinstance(m.body[0], ast.ImportFrom):
+            continue
+        st = m.body[0]
+        for fn, single in ((px.parse_ImportFrom_name, True), (px.parse__ImportFrom_names, False)):
+            try:
+                fn(T)
+                r = True
+            except SyntaxError:
+                r = False
+            except Exception as e:
+                r = 'exc:' + type(e).__name__
+            cases.append({'f': 'C05.importfrom_check', 'alias': _loc4(st.names[-1]), 'stmt': _loc4(st), 'n': len(st.names), 'single': single,
+                          'src': T})
+            impl.append(r)
+    ctx.compare("parse_ImportFrom_name/_names accept vs Pfst.ParseWrap.importFromNameOk/endsWithStmt on CPython's positions", cases, impl,
+                keyf=lambda c: (c['src'], c['single']), nontrivial=lambda c, o: '(' in c['src'] or '\n' in c['src'])
     # (f) rebasing: Lean rebaseAt on CPython's positions of the full program == positions pfst returns for the fragment
     cases, impl = [], []
     for src in progs[:40 if q else 300] + EXTRA:
@@ -1149,9 +1204,9 @@ def _run_all(ctx, nprog, nstd, per_kind, cap, n_random_mal, n_phrase_jobs=48, n_
         ctx.sample({'fragment': {k: r[k] for k in ('mode', 'kind', 'variant', 'text')}})
     # (3)
     rng = random.Random(ctx.rng.random())
-    strings = invalid_data_strings() + generated_malformed(rng, n_random_mal)
+    strings = invalid_data_strings() + generated_malformed(rng, n_random_mal) + own_delimiter_product()
     ctx.notes['malformed_strings'] = len(strings)
-    ctx.notes['malformed_from_data_file'] = sum(1 for l, _ in strings if l == 'data-file')
+    ctx.notes['malformed_from_data_file'] = sum(1 for x in strings if x[0] == 'data-file')
     rows = [r for lst in pmap(_mal_worker, strings) for r in lst]
     _report_mal(ctx, rows)
     ctx.notes['malformed_parses'] = len(rows)
